@@ -165,6 +165,14 @@ fn to_witem(e: &EntryView) -> WItem {
 }
 
 fn run_real<V: VirtualFileSystem>(v: &V, root: &str, o: &WOpts, cap: Option<u16>, limit: usize) -> Result<Vec<WItem>, String> {
+    // a panic inside the traversal is a finding about the traversal, not a harness failure
+    match catch(|| run_real_inner(v, root, o, cap, limit)) {
+        Ok(r) => r,
+        Err(msg) => Err(format!("panic: {}", msg)),
+    }
+}
+
+fn run_real_inner<V: VirtualFileSystem>(v: &V, root: &str, o: &WOpts, cap: Option<u16>, limit: usize) -> Result<Vec<WItem>, String> {
     let mut e = v.entries(root).map_err(|e| err_kind(&e))?;
     e = e.min_depth(o.min);
     if o.max != usize::MAX {
@@ -288,6 +296,8 @@ fn check_case(backend: &str, t: &NTree, root: &str, o: &WOpts, got: &Result<Vec<
         Err(e) => {
             if e == "does-not-terminate" {
                 rep.violation(&format!("walk:{}({}):terminates→more-than-2n+8-items", backend, sig_opts), wit("iteration did not stop".into()));
+            } else if e.starts_with("panic: ") {
+                rep.violation(&format!("walk:{}({}{}):returns→panic", backend, sig_opts, cap.map(|c| format!(",descriptor-cap={}", c)).unwrap_or_default()), wit(e.clone()));
             } else if !exp.is_empty() {
                 rep.violation(&format!("walk:{}({}):entries()-Ok→Err({})", backend, sig_opts, e), wit(e.clone()));
             }
@@ -492,16 +502,22 @@ fn through_link_cycles(sroot: &str, rep: &mut Report) {
             }
             let (mut items, mut errors, mut longest) = (0usize, 0usize, 0usize);
             let mut ended = true;
-            for x in e {
-                items += 1;
-                match x {
-                    Ok(en) => longest = longest.max(en.path().to_string_lossy().len() - sroot.len()),
-                    Err(_) => errors += 1,
+            let walked = catch(|| {
+                for x in e {
+                    items += 1;
+                    match x {
+                        Ok(en) => longest = longest.max(en.path().to_string_lossy().len() - sroot.len()),
+                        Err(_) => errors += 1,
+                    }
+                    if items >= cap {
+                        ended = false;
+                        break;
+                    }
                 }
-                if items >= cap {
-                    ended = false;
-                    break;
-                }
+            });
+            if let Err(msg) = walked {
+                rep.violation(&format!("walk:stdfs({},{}):returns→panic", oname, class), J::obj(vec![("tree", J::s(format!("link {} -> {}, link {} -> {}", l1, t1, l2, t2))), ("panic", J::s(msg)), ("items_before", J::Int(items as i64))]));
+                continue;
             }
             rep.key_str(&format!("stdfs|directed|{}|{}|{}", oname, class, ended));
             rep.count("directed_link_cycle_walks", 1);
@@ -625,10 +641,14 @@ fn c08(ctx: &Ctx, rep: &mut Report) {
                 }
             }
         }
-        listing_checks(&mem, "memfs", &t, &|k| k.to_string(), rep);
+        if let Err(msg) = catch(|| listing_checks(&mem, "memfs", &t, &|k| k.to_string(), rep)) {
+            rep.violation("listing:memfs:returns→panic", J::obj(vec![("tree", t.to_json()), ("panic", J::s(msg))]));
+        }
         if on_disk {
             let sr = sroot.clone();
-            listing_checks(&Stdfs::new(), "stdfs", &t, &move |k| if k == "/" { sr.clone() } else { format!("{}{}", sr, k) }, rep);
+            if let Err(msg) = catch(|| listing_checks(&Stdfs::new(), "stdfs", &t, &move |k| if k == "/" { sr.clone() } else { format!("{}{}", sr, k) }, rep)) {
+                rep.violation("listing:stdfs:returns→panic", J::obj(vec![("tree", t.to_json()), ("panic", J::s(msg))]));
+            }
         }
         if rep.want_sample() && t.nodes.len() > 6 {
             let o = &recs[(ti * 37) % recs.len()];
